@@ -183,6 +183,14 @@ func (s *T) Fail(c any, err error) {
 	os.WriteFile(out, doc, 0o644)
 }
 
+// Failed reports how many failing cases this test has recorded so far (> 0 means the
+// generator library is shrinking).
+func (s *T) Failed() int {
+	s.mu.Lock()
+	defer s.mu.Unlock()
+	return s.failed
+}
+
 // RegisterReplay associates a test name with a function that runs one
 // serialised case, bypassing the generator library.
 func RegisterReplay(test string, fn func(json.RawMessage) error) {
